@@ -130,7 +130,7 @@ fn parse_events(s: &str) -> Vec<(u32, u8)> { s.split(';').filter(|x| !x.is_empty
 fn events_str(e: &[(u32, u8)]) -> String { e.iter().map(|(a, b)| format!("{a}/{b}")).collect::<Vec<_>>().join(";") }
 
 pub fn run(ctx: &Ctx) -> Report {
-    let mut rep = Report::new("exact counts n=1..8 and every non-empty range lo..=hi / lo..hi with 0<=lo<=hi<=4; through hook H2 every RNG sample is a branch point, so EVERY sample sequence (first 7 samples) is run on the real TimerDevice for 40 polls; deviations: disable / io_reset at each of the first 14 polls (1 deviation) and disable-then-enable / double reset pairs (2 deviations); oracle (the property itself): polls strictly between consecutive interrupts within the range (= n for exact n), first interrupt at most max+1 polls after enable/reset, never while disabled; plus unhooked runs: same seed => same sequence (6 seeds x 2), and the same device inside a Simulator observed through a pass-through probe. non-trivial = runs with at least one interrupt");
+    let mut rep = Report::new("exact counts n=1..8 and every non-empty range lo..=hi / lo..hi with 0<=lo<=hi<=4; through hook H2 every RNG sample is a branch point, so EVERY sample sequence (first 7 samples) is run on the real TimerDevice for 40 polls; deviations: disable / io_reset at each of the first 14 polls (1 deviation) and disable-then-enable / double reset pairs (2 deviations); oracle (the property itself): polls strictly between consecutive interrupts within the range (= n for exact n), first interrupt at most max+1 polls after enable/reset, never while disabled; plus unhooked runs: same seed => same sequence (6 seeds x 2), the same device inside a Simulator (interrupt priorities 1, 4, 7; one poll per instruction cycle) observed through a pass-through probe, and Simulator::reset() after the range was shortened mid-interval (24 cases). non-trivial = runs with at least one interrupt");
     let rs = ranges();
     let polls = 40;
     let evs = event_sets(polls, 2);
@@ -157,7 +157,11 @@ pub fn run(ctx: &Ctx) -> Report {
         }
     } }
     // inside a simulator: the device's answers at each instruction boundary obey the same rule
-    for (ri, r) in rs.iter().enumerate() { if let Err((sig, d)) = in_simulator(*r) { rep.acc.violation(sig, format!("s:{ri}"), d); } rep.acc.evals += 1; }
+    for (ri, r) in rs.iter().enumerate() { for prio in [1u8, 4, 7] { if let Err((sig, d)) = in_simulator(*r, prio) { rep.acc.violation(sig, format!("s:{ri}:{prio}"), d); } rep.acc.evals += 1; } }
+    for long in [30u32, 200] { for short in [1u32, 3, 8] { for before in [0u32, 1, 5, 12] {
+        rep.acc.evals += 1; rep.acc.count("simulator_reset_cases", 1);
+        if let Err((sig, d)) = reset_in_simulator(long, short, before) { rep.acc.violation(sig, format!("r:{long}:{short}:{before}"), d); }
+    } } }
     rep.bound("ranges", Json::i(nr)); rep.bound("polls", Json::i(polls)); rep.bound("event_sets", Json::i(ne_eff)); rep.bound("samples_branched", Json::i(7));
     rep.require(rep.acc.nontrivial > 1000 && rep.acc.outcomes.len() > 100, "many distinct firing patterns explored");
     rep.assume("hook H2 replaces only the RNG draw; empty ranges (rand panics at construction) are caller error and outside the property");
@@ -171,7 +175,38 @@ impl ExternalDevice for Probe {
     fn io_reset(&mut self) { self.inner.io_reset() }
     fn poll_interrupt(&mut self) -> Option<lc3_ensemble::sim::device::Interrupt> { let r = self.inner.poll_interrupt(); self.log.lock().unwrap().push(r.is_some()); r }
 }
-fn in_simulator(r: Range) -> Result<(), (String, String)> {
+/// Simulator::reset must re-arm an attached timer: after a long interval is under way, the range is shortened and the simulator reset;
+/// the first interrupt has to arrive within the NEW maximum + 1 polls.
+fn reset_in_simulator(long: u32, short: u32, run_before: u32) -> Result<(), (String, String)> {
+    use lc3_ensemble::sim::mem::MachineInitStrategy;
+    use lc3_ensemble::sim::{SimFlags, Simulator};
+    use std::sync::{Arc, RwLock};
+    let what = format!("timer exact {long}, {run_before} steps, set_exact({short}), Simulator::reset()");
+    let res = catch(|| {
+        let mut sim = Simulator::new(SimFlags { machine_init: MachineInitStrategy::Known { value: 0 }, ..Default::default() });
+        let log = std::sync::Arc::new(std::sync::Mutex::new(vec![]));
+        let mut t = TimerDevice::new(Some(3), long..=long, 0x81, 4); t.enabled = true;
+        let dev = Arc::new(RwLock::new(Probe { inner: t, log: log.clone() }));
+        sim.device_handler.add_device(dev.clone(), &[]).ok().unwrap();
+        let prep = |sim: &mut Simulator| { sim.mem[0x0181].set(0x1F00); sim.mem[0x1F00].set(0x8000); for a in 0x3000..0x3100u16 { sim.mem[a].set(0x1021); } };
+        prep(&mut sim);
+        for _ in 0..run_before { let _ = sim.step_in(); }
+        dev.write().unwrap().inner.set_exact(short);
+        sim.reset();
+        prep(&mut sim);
+        log.lock().unwrap().clear();
+        for _ in 0..(short + 6) { let _ = sim.step_in(); }
+        let v = log.lock().unwrap().clone(); v
+    });
+    match res {
+        Err(p) => Err((format!("panic:{}", panic_site(&p)), p)),
+        Ok(fires) => match fires.iter().position(|f| *f) {
+            Some(i) if i as u32 + 1 <= short + 1 => Ok(()),
+            other => Err(("first-interrupt-late:after-simulator-reset".into(), format!("{what}: first interrupt after the reset at poll {:?} (1-based), allowed at most {}; fires {:?}", other.map(|i| i + 1), short + 1, fires.iter().map(|f| if *f { '!' } else { '.' }).collect::<String>()))),
+        },
+    }
+}
+fn in_simulator(r: Range, prio: u8) -> Result<(), (String, String)> {
     use lc3_ensemble::sim::mem::MachineInitStrategy;
     use lc3_ensemble::sim::{SimFlags, Simulator};
     let res = catch(|| {
@@ -179,15 +214,15 @@ fn in_simulator(r: Range) -> Result<(), (String, String)> {
         sim.mem[0x0181].set(0x1F00); sim.mem[0x1F00].set(0x8000); // handler: RTI
         for a in 0x3000..0x3100u16 { sim.mem[a].set(0x1021); }
         let log = std::sync::Arc::new(std::sync::Mutex::new(vec![]));
-        let mut t = r.make(Some(3)); t.enabled = true;
+        let mut t = r.make(Some(3)); t.enabled = true; t.priority = prio;
         sim.device_handler.add_device(Probe { inner: t, log: log.clone() }, &[]).ok().unwrap();
         for _ in 0..120 { let _ = sim.step_in(); }
         let v = log.lock().unwrap().clone(); v
     });
     match res {
         Err(p) => Err((format!("panic:{}", panic_site(&p)), p)),
-        Ok(fires) => { if fires.len() != 120 { return Err(("poll-count".into(), format!("range {r:?}: device polled {} times in 120 steps", fires.len()))); }
-            let tr = Trace { enabled: vec![true; fires.len()], fires, samples_asked: vec![], resets: vec![] }; judge(r, &tr, &format!("range {r:?} inside a simulator")) }
+        Ok(fires) => { if fires.len() != 120 { return Err(("poll-count".into(), format!("range {r:?} priority {prio}: device polled {} times in 120 steps (a device is polled once per instruction cycle)", fires.len()))); }
+            let tr = Trace { enabled: vec![true; fires.len()], fires, samples_asked: vec![], resets: vec![] }; judge(r, &tr, &format!("range {r:?} priority {prio} inside a simulator")) }
     }
 }
 
@@ -206,7 +241,8 @@ pub fn replay(case: &str) -> Option<String> {
             let fires: Vec<bool> = catch(|| { let mut t = r.make(Some(seed)); t.enabled = true; (0..200).map(|_| t.poll_interrupt().is_some()).collect() }).ok()?;
             let tr = Trace { enabled: vec![true; fires.len()], fires, samples_asked: vec![], resets: vec![] };
             judge(r, &tr, "real RNG").err().map(|x| format!("[{}] {}", x.0, x.1)) }
-        "s" => in_simulator(rs[p.get(1)?.parse::<usize>().ok()?]).err().map(|x| format!("[{}] {}", x.0, x.1)),
+        "s" => in_simulator(rs[p.get(1)?.parse::<usize>().ok()?], p.get(2).and_then(|x| x.parse().ok()).unwrap_or(4)).err().map(|x| format!("[{}] {}", x.0, x.1)),
+        "r" => reset_in_simulator(p.get(1)?.parse().ok()?, p.get(2)?.parse().ok()?, p.get(3)?.parse().ok()?).err().map(|x| format!("[{}] {}", x.0, x.1)),
         _ => None,
     }
 }
